@@ -95,7 +95,60 @@ def main():
             ("it.entryOffset = rand()", "it.entryOffset = 0", 1),
             ("it.dirOffset = rand()", "it.dirOffset = 0", 1),
         ],
+        # the two places where the runtime flips a coin that decides user-visible order:
+        # which ready case a select takes, and which of two bubbled timers with the same
+        # deadline fires first. Both draw from a scenario-seeded stream (verifRand, below).
+        "src/runtime/select.go": [
+            ("j := cheaprandn(uint32(norder + 1))", "j := verifSelectJ(uint32(i), uint32(norder+1))", 1),
+        ],
+        "src/runtime/time.go": [
+            ("t.rand = cheaprand()", "t.rand = verifTimerRand(t.when)", 1),
+        ],
     }
+    RT_EXTRA = '''package runtime
+
+import _ "unsafe"
+
+// verifSeed is set by the simulation harness at the start of every scenario (through
+// go:linkname). While it is zero the runtime behaves as shipped.
+//
+//go:linkname verifSeed
+var verifSeed uint64
+
+// The coin is a pure function of (seed, fake time, what is being decided): an unrelated
+// extra select or timer somewhere else does not shift any other decision.
+func verifMix(a, b, c uint64) uint32 {
+	x := a ^ b*0x9e3779b97f4a7c15 ^ c*0xc2b2ae3d27d4eb4f
+	x ^= x >> 29
+	x *= 0xbf58476d1ce4e5b9
+	x ^= x >> 32
+	return uint32(x)
+}
+
+func verifNow() int64 {
+	if b := getg().bubble; b != nil {
+		return b.now
+	}
+	return 0
+}
+
+// verifSelectJ places case i of a select among the norder+1 = n positions of the poll order.
+func verifSelectJ(i, n uint32) uint32 {
+	if verifSeed == 0 {
+		return cheaprandn(n)
+	}
+	return verifMix(verifSeed, uint64(verifNow()), uint64(i)<<32|uint64(n)) % n
+}
+
+// verifTimerRand ranks a bubbled timer among those with the same deadline; equal ranks
+// fall back to heap (insertion) order.
+func verifTimerRand(when int64) uint32 {
+	if verifSeed == 0 {
+		return cheaprand()
+	}
+	return verifMix(verifSeed, uint64(when), uint64(verifNow()))
+}
+'''
     std_repl = {}
     for f, subs in STD.items():
         sp = os.path.join(goroot, f)
@@ -115,6 +168,17 @@ def main():
         if not os.path.exists(out) or open(out).read() != src:
             open(out, "w").write(src)
         std_repl[sp] = out
+    if std_repl is not None:
+        out = os.path.join(BUILD, "shim", "goroot", "src/runtime/zz_verif_rand.go")
+        if not os.path.exists(out) or open(out).read() != RT_EXTRA:
+            open(out, "w").write(RT_EXTRA)
+        std_repl[os.path.join(goroot, "src/runtime/zz_verif_rand.go")] = out
+    marker = os.path.join(BUILD, "std_overlay_ok")
+    if std_repl is None:
+        if os.path.exists(marker):
+            os.unlink(marker)
+    else:
+        open(marker, "w").write("1")
     if std_repl is None:
         sys.stderr.write("overlay: note: Go runtime sources differ from the pinned toolchain; map iteration stays randomised\n")
     else:
